@@ -91,7 +91,8 @@ Definition run_actions (emit : world -> val -> md -> world * status) (coro : boo
            (d : nat) (acts : list action) (w : world) : world * status :=
   fold_left (do_action emit coro d) acts (w, SOk).
 
-(* one downstream.update(x, who=n, metadata=m) call plus the release that follows it in _emit *)
+(* one downstream.update(x, who=n, metadata=m) call plus the release that follows it in _emit (the hand-over to a child
+   that is still attached, see [hand]) *)
 Definition deliver (emitfrom : nat -> world -> val -> md -> world * status)
            (g : graph) (depth n : nat) (x : val) (m : md)
            (ws : world * status) (d : nat) : world * status :=
@@ -113,6 +114,22 @@ Definition deliver (emitfrom : nat -> world -> val -> md -> world * status)
     end
   else ws.
 
+(* `downstream in self.downstreams`, evaluated on the world at the time of the test *)
+Definition attached (g : graph) (w : world) (n d : nat) : bool := existsb (Nat.eqb d) (downs g w n).
+
+(* one turn of the loop of _emit over the snapshot `list(self.downstreams)`: a child that has left self.downstreams since
+   the snapshot was taken (a slice that finished during an earlier hand-over of this same emission: a feedback edge, or
+   a slice attached to several upstreams) is not called; the reference retained for it up-front is given back.  No call,
+   no log entry.  Otherwise: [deliver]. *)
+Definition hand (emitfrom : nat -> world -> val -> md -> world * status)
+           (g : graph) (depth n : nat) (x : val) (m : md)
+           (ws : world * status) (d : nat) : world * status :=
+  let '(w, s) := ws in
+  if status_go s then
+    if attached g w n d then deliver emitfrom g depth n x m ws d
+    else (release w m 1, s)
+  else ws.
+
 (* Stream._emit at node n *)
 Fixpoint push (fuel : nat) (g : graph) (depth n : nat) (w : world) (x : val) (m : md)
   {struct fuel} : world * status :=
@@ -121,8 +138,33 @@ Fixpoint push (fuel : nat) (g : graph) (depth n : nat) (w : world) (x : val) (m 
   | S fuel' =>
     let ds := downs g w n in
     let w := retain w m (Z.of_nat (length ds)) in
-    fold_left (deliver (fun d => push fuel' g (S depth) d) g depth n x m) ds (w, SOk)
+    fold_left (hand (fun d => push fuel' g (S depth) d) g depth n x m) ds (w, SOk)
   end.
+
+(* ---- the three cases of one turn ---------------------------------------- *)
+Lemma hand_stop emitfrom g depth n x m w s d :
+  status_go s = false -> hand emitfrom g depth n x m (w, s) d = (w, s).
+Proof. intros H. unfold hand. rewrite H. reflexivity. Qed.
+
+Lemma hand_attached emitfrom g depth n x m w s d :
+  attached g w n d = true -> hand emitfrom g depth n x m (w, s) d = deliver emitfrom g depth n x m (w, s) d.
+Proof. intros H. unfold hand. rewrite H. destruct (status_go s) eqn:E; [reflexivity|]. unfold deliver. rewrite E. reflexivity. Qed.
+
+Lemma hand_gone emitfrom g depth n x m w s d :
+  status_go s = true -> attached g w n d = false -> hand emitfrom g depth n x m (w, s) d = (release w m 1, s).
+Proof. intros H1 H2. unfold hand. rewrite H1, H2. reflexivity. Qed.
+
+(* case analysis for proofs about a fold of [hand]: either it is the hand-over [deliver], or the world only lost the
+   reference retained for the absent child *)
+Lemma hand_cases emitfrom g depth n x m w s d :
+  hand emitfrom g depth n x m (w, s) d = deliver emitfrom g depth n x m (w, s) d \/
+  (status_go s = true /\ attached g w n d = false /\ hand emitfrom g depth n x m (w, s) d = (release w m 1, s)).
+Proof.
+  destruct (attached g w n d) eqn:A; [left; apply hand_attached; exact A|].
+  destruct (status_go s) eqn:G.
+  - right. split; [reflexivity|]. split; [reflexivity|]. apply hand_gone; assumption.
+  - left. rewrite hand_stop by exact G. unfold deliver. rewrite G. reflexivity.
+Qed.
 
 (* ---- external events ---------------------------------------------------- *)
 Inductive event :=
